@@ -134,7 +134,10 @@ def _board(bid, owner, declarer, plays, k, stats=None):
             looked_ahead = True
             import copy
             for env in [b.env] + list(b.obs):
-                cp = copy.deepcopy(env)
+                try:
+                    cp = copy.deepcopy(env)
+                except Exception:  # noqa  (nothing to look ahead with; that boards can be deep-copied is checked by C05)
+                    continue
                 mm = copy.deepcopy(b.m)
                 for c2 in cards[i:i + 1 + (k + i) % 2]:
                     try:
